@@ -66,7 +66,10 @@ Inductive probe :=
 | PCrash (out : option exn) (states : list fobs)
 | PFault (s : csig) (occ : nat) (e : errno) (out : option exn) (post : fobs)
 | PFault2 (s1 : csig) (occ1 : nat) (e1 : errno) (s2 : csig) (occ2 : nat) (e2 : errno)
-          (out : option exn) (post : fobs).      (* a second fault later in the same (faulted) run *)
+          (out : option exn) (post : fobs)       (* a second fault later in the same (faulted) run *)
+| PFollow (s : csig) (occ : nat) (e : errno) (out1 : option exn) (mid : fobs)
+          (fo : fop) (out2 : option exn) (final : fobs).
+          (* a handled fault, then a follow-up operation through the SAME handle, then a restart *)
 
 Record case_C11 := {
   k_atomic : bool;
@@ -173,6 +176,19 @@ Definition mismatch_C11 (c : case_C11) : bool :=
               negb (Nat.ltb k1 k2 && out_match o out && fobs_match fr (k_wss c) f post)
           end
       end
+  | PFollow s occ e out1 mid fo out2 final =>
+      match find_occ s occ (call_list c) 0 with
+      | None => true
+      | Some k =>
+          let '(f1, o1) := run_fault (single k e) 0 (prog_of c) (k_pre c) in
+          let '(f2, o2) := run_fault (single k e) 0 (follow_prog fr (k_atomic c) (k_op c) fo) (k_pre c) in
+          negb (out_match o1 out1 && fobs_match fr (k_wss c) f1 mid
+                && match o2 with
+                   | inl (r1, r2) => out_match r1 out1 && out_match r2 out2
+                   | inr _ => false
+                   end
+                && fobs_match fr (k_wss c) f2 final)
+      end
   end.
 
 (* ------------------------------------------------------------------ the oracle *)
@@ -191,6 +207,57 @@ Definition detectable (c : case_C11) (o : fobs) : bool :=
 Definition fault_state_ok (c : case_C11) (o : fobs) : bool :=
   is_removal (k_op c) || others_same [] (k_pre c) (fo_tree o) || detectable c o
   || post_ok (frepr_of c) (k_op c) (k_pre c) (fo_tree o).      (* the effect is complete; only the final validation read failed *)
+
+(* ---- a handled error must leave the HANDLE in the pre-state too: what a follow-up through it may produce *)
+(* where the job may legitimately be after the first operation: (workspace, state point) *)
+Definition cands (c : case_C11) : list (path * json) :=
+  let fr := frepr_of c in
+  let old ws i := match sp_value (k_pre c) ws i with Some v => [(ws, v)] | None => [] end in
+  match k_op c with
+  | KInit ws sp _ => [(ws, sp)]
+  | KRekey ws i nsp => old ws i ++ [(ws, nsp)]
+  | KMove ws i dws => old ws i ++ match sp_value (k_pre c) ws i with Some v => [(dws, v)] | None => [] end
+  | KClone ws i _ | KRemove ws i | KClear ws i => old ws i
+  end.
+
+Definition apply_fop (fo : fop) (d : json) : json :=
+  match fo with FSet k v => set_key d k v | _ => d end.
+
+(* the places in which the job validates after the first operation; the follow-up acts on exactly these *)
+Definition bases (c : case_C11) (mid : fobs) : list (path * json) :=
+  filter (fun b => validates (frepr_of c) (fo_tree mid) (fst b) (calc_id (frepr_of c) (snd b))
+                   && match sp_value (fo_tree mid) (fst b) (calc_id (frepr_of c) (snd b)) with
+                      | Some v => json_same v (snd b) | None => false end) (cands c).
+
+Definition allowed_after (c : case_C11) (mid : fobs) (fo : fop) : list (path * json) :=
+  let bs := match bases c mid with [] => cands c | l => l end in
+  bs ++ map (fun b => (fst b, apply_fop fo (snd b))) bs.
+
+Definition follow_dirs (c : case_C11) (fo : fop) : list path :=
+  let fr := frepr_of c in
+  let all := cands c ++ map (fun b => (fst b, apply_fop fo (snd b))) (cands c) in
+  map (fun b => fst b ++ [calc_id fr (snd b)]) all ++ affected fr (k_op c) (k_pre c)
+  ++ match k_op c with KClone _ _ _ => [dst_dir fr (k_op c) (k_pre c)] | _ => [] end.
+
+Definition follow_ok (c : case_C11) (mid : fobs) (fo : fop) (final : fobs) : bool :=
+  let fr := frepr_of c in
+  let f := fo_tree final in
+  let ds := follow_dirs c fo in
+  let ok := allowed_after c mid fo in
+  (* nothing outside the directories the two operations may legitimately touch has changed (in particular:
+     no directory under an unexpected id has appeared) *)
+  others_same ds (k_pre c) f
+  && forallb (fun w =>
+       listed_ok fr f (wo_ws w) (wo_listed w) (wo_reported w)
+       && forallb (fun i =>
+            negb (validates fr f (wo_ws w) i) || negb (under_any ds (wo_ws w ++ [i]))
+            || match sp_value f (wo_ws w) i with
+               | Some v => existsb (fun b => path_eqb (fst b) (wo_ws w) && json_same v (snd b)) ok
+                           || match k_op c with
+                              | KClone _ _ _ => path_eqb (wo_ws w ++ [i]) (dst_dir fr (k_op c) (k_pre c))
+                              | _ => false end
+               | None => false
+               end) (wo_listed w)) (fo_ws final).
 
 Definition holds_C11 (c : case_C11) : bool :=
   match k_probe c with
@@ -211,6 +278,11 @@ Definition holds_C11 (c : case_C11) : bool :=
       | None => post_ok (frepr_of c) (k_op c) (k_pre c) (fo_tree post) && holds_obs c post
       | Some _ => holds_obs c post && fault_state_ok c post
       end
+  | PFollow _ _ _ out1 mid fo _ final =>
+      match out1 with
+      | None => true                                  (* only handled errors are followed up *)
+      | Some _ => holds_obs c mid && fault_state_ok c mid && follow_ok c mid fo final
+      end
   end.
 
 Definition violation_C11 (c : case_C11) : bool := negb (holds_C11 c).
@@ -228,6 +300,11 @@ Definition known_tag_C11 (c : case_C11) : N :=
       let d := dst_dir (frepr_of c) (k_op c) (k_pre c) in
       let cleanup (s : csig) := (ckind_eqb (sg_kind s) SgUnlink || ckind_eqb (sg_kind s) SgRmdir) && under d (sg_p s) in
       if negb (cleanup s1) && (under d (sg_p s1) || under (ws ++ [i]) (sg_p s1)) && cleanup s2 then 3 else 0
+  (* tag 4: a re-key whose FIRST rename (state point file -> backup) fails keeps the rejected state point in
+     the handle's memory; a later state point change through the same handle applies it too *)
+  | KRekey ws i _, PFollow s _ _ (Some _) _ (FSet _ _) _ _ =>
+      if ckind_eqb (sg_kind s) SgRename && path_eqb (sg_p s) (ws ++ [i; SPF]) && path_eqb (sg_q s) (ws ++ [i; SPT])
+      then 4 else 0
   | _, _ => 0
   end%N.
 
